@@ -2016,9 +2016,10 @@ class KmipEngine(object):
         managed_object_factory = factory.ObjectFactory()
         try:
             managed_object = managed_object_factory.convert(secret)
-        except TypeError as e:
+        except (TypeError, ValueError) as e:
             # The factory refuses objects it cannot store, e.g. a symmetric
-            # key in a key format other than Raw.
+            # key in a key format other than Raw, or a key whose declared
+            # length does not match its value.
             raise exceptions.InvalidField(
                 "The object cannot be registered: {0}".format(e)
             )
